@@ -272,7 +272,7 @@ func ArrayAccessFunction(name string) ZlispUserFunction {
 			case *SexpInt:
 				i = int(j.Val)
 			default:
-				return SexpNull, fmt.Errorf("Second argument of aget could not be evaluated to integer; got j = '%#v'/type = %T", j, j)
+				return SexpNull, fmt.Errorf("Second argument of aget could not be evaluated to integer; got j = '%s'/type = %T", showForErr(j), j)
 			}
 		}
 
@@ -934,7 +934,7 @@ func MapFunction(env *Zlisp, name string, args []Sexp) (Sexp, error) {
 	case *SexpFunction:
 		fun = e
 	default:
-		return SexpNull, fmt.Errorf("first argument must be function, but we had %T / val = '%#v'", e, e)
+		return SexpNull, fmt.Errorf("first argument must be function, but we had %T / val = '%s'", e, showForErr(e))
 	}
 
 	switch e := args[1].(type) {
@@ -948,9 +948,9 @@ func MapFunction(env *Zlisp, name string, args []Sexp) (Sexp, error) {
 			// nil is the empty list
 			return SexpNull, nil
 		}
-		return SexpNull, fmt.Errorf("second argument must be array or list; we saw %T / val = %#v", e, e)
+		return SexpNull, fmt.Errorf("second argument must be array or list; we saw %T / val = %s", e, showForErr(e))
 	default:
-		return SexpNull, fmt.Errorf("second argument must be array or list; we saw %T / val = %#v", e, e)
+		return SexpNull, fmt.Errorf("second argument must be array or list; we saw %T / val = %s", e, showForErr(e))
 	}
 }
 
